@@ -18,7 +18,11 @@ Avg(h):    n := len; repeat n times { o := heap.Pop(); if since(o) < h { heap.Pu
 ```
 The float result is `total / seconds`; the harness recovers `total` from it exactly (window lengths
 are small multiples of 2048 s, totals far below 2^24); a zero window yields `NaN` for total 0 and
-`+Inf` otherwise.  `uint64` wrap-around of `total` is not modelled (`Nat`).
+`+Inf` otherwise; for totals of 2^22 and more (not recoverable from the float32 quotient with certainty) the harness reads the field
+`total` itself and checks the float against its own oracle.  `total` is a `uint64`: `+=` and `-=`
+wrap around modulo 2^64 (`wadd` / `wsub`), counts are `uint64` values (an `add c` request stores
+`c mod 2^64`).  A negative window (`avg -k`) holds nothing: it behaves as the empty window except
+that the quotient is `-0` instead of `NaN` (`stepLine`).
 -/
 namespace Hive.C12b.TH
 
@@ -106,6 +110,15 @@ deriving Repr, DecidableEq
 
 def inWindow (now h : Nat) (e : Entry) : Bool := decide (2 * (now - e.ts) < h)
 
+/-- 2^64: `total` and `count` are `uint64`. -/
+def W : Nat := 18446744073709551616
+
+/-- `uint64` addition. -/
+def wadd (a b : Nat) : Nat := (a + b) % W
+
+/-- `uint64` subtraction. -/
+def wsub (a b : Nat) : Nat := (a + W - b % W) % W
+
 /-- The loop of `AveragePerSecond` (`fuel` = the heap length at entry). -/
 def expire (now h : Nat) : Nat → List Entry → Nat → List Entry × Nat
   | 0, a, total => (a, total)
@@ -114,11 +127,11 @@ def expire (now h : Nat) : Nat → List Entry → Nat → List Entry × Nat
     | none => (a, total)
     | some (e, a') =>
       if inWindow now h e then (heapPush a' e, total)
-      else expire now h k a' (total - e.count)
+      else expire now h k a' (wsub total e.count)
 
 def step (s : St) : Op → St × Out
   | .tick d => ({ s with now := s.now + d }, .ok)
-  | .add c => ({ s with heap := heapPush s.heap { ts := s.now, count := c }, total := s.total + c }, .ok)
+  | .add c => ({ s with heap := heapPush s.heap { ts := s.now, count := c % W }, total := wadd s.total (c % W) }, .ok)
   | .clear => ({ s with heap := [], total := 0 }, .ok)
   | .avg h =>
     let r := expire s.now h s.heap.length s.heap s.total
@@ -147,11 +160,11 @@ def counts (l : List Entry) : Nat := (l.map (·.count)).sum
 
 def specStep (s : Spec) : Op → Spec × Out
   | .tick d => ({ s with now := s.now + d }, .ok)
-  | .add c => ({ s with live := s.live ++ [{ ts := s.now, count := c }] }, .ok)
+  | .add c => ({ s with live := s.live ++ [{ ts := s.now, count := c % W }] }, .ok)
   | .clear => ({ s with live := [] }, .ok)
   | .avg h =>
     let l := s.live.filter (inWindow s.now h)
-    ({ s with live := l }, .total (counts l) h)
+    ({ s with live := l }, .total (counts l % W) h)
 
 def specRun (s : Spec) : List Op → Spec × List Out
   | [] => (s, [])
@@ -175,9 +188,26 @@ def parseOp : List String → Option Op
   | ["avg", h] => h.toNat?.map .avg
   | _ => none
 
+/-- The whole state in canonical form: the running total and the heap as `age:count` pairs sorted
+by age, then count (the array order depends on ties between timestamps of one tick, which the real
+clock breaks; the multiset does not). -/
+def showState (s : St) : String :=
+  let l := sortBy (fun p => p.1 * W + p.2) (s.heap.map (fun e => (s.now - e.ts, e.count)))
+  s!"total={s.total} heap=[" ++ " ".intercalate (l.map (fun p => s!"{p.1}:{p.2}")) ++ "]"
+
 def stepLine (s : St) (toks : List String) : St × String :=
   match toks with
   | "new" :: _ => (init, "ok")
+  | ["state"] => (s, showState s)
+  | ["avg", h] =>
+    if h.startsWith "-" then
+      -- a negative window: everything expires as for the empty window; the answer is the running total
+      match (h.drop 1).toNat? with
+      | some _ => let r := step s (.avg 0); (r.1, match r.2 with | .total n _ => toString n | .ok => "ok")
+      | none => (s, "bad-op")
+    else match h.toNat? with
+      | some h => let r := step s (.avg h); (r.1, showOut r.2)
+      | none => (s, "bad-op")
   | _ => match parseOp toks with
     | some op => let r := step s op; (r.1, showOut r.2)
     | none => (s, "bad-op")
